@@ -150,3 +150,96 @@ def recname(arr):
             lay = lay.content
         else:
             return None
+
+
+# ---------------------------------------------------------------------------
+# physical layout twins: the same logical array (same to_list, same record name, same behavior) held in a different
+# physical Awkward layout.  Real analyses meet these all the time (a selection gives IndexedArray / ListArray, ak.mask a
+# ByteMaskedArray, reading a file gives non-zero offsets, ...), the constructors above never produce them.
+
+PHYSICAL = ("listarray-gaps", "indexed-records", "sliced-offsets", "bytemasked-allvalid", "unmasked", "bitmasked-allvalid",
+            "strided-leaves", "indexed-lists")
+
+
+def relayout(arr, kind):
+    import awkward as ak
+    from awkward.contents import (BitMaskedArray, ByteMaskedArray, IndexedArray, IndexedOptionArray, ListArray,
+                                  ListOffsetArray, NumpyArray, RecordArray, RegularArray, UnmaskedArray)
+    from awkward.index import Index8, Index64, IndexU8
+
+    done = {"n": 0}
+
+    def rec(lay):
+        if isinstance(lay, ListOffsetArray):
+            content = rec(lay.content)
+            offsets = numpy.asarray(lay.offsets)
+            nl = len(offsets) - 1
+            if kind == "listarray-gaps" and len(lay.content) > 0:
+                # lists stored in reverse order with one junk element between them; starts/stops pick them out
+                idx, starts, stops = [], numpy.zeros(nl, numpy.int64), numpy.zeros(nl, numpy.int64)
+                for li in reversed(range(nl)):
+                    idx.append(0)  # junk, never reachable
+                    starts[li] = len(idx)
+                    idx.extend(range(int(offsets[li]), int(offsets[li + 1])))
+                    stops[li] = len(idx)
+                new_content = content._carry(Index64(numpy.array(idx, numpy.int64)), False)
+                done["n"] += 1
+                return ListArray(Index64(starts), Index64(stops), new_content, parameters=lay.parameters)
+            if kind == "sliced-offsets" and nl > 0:
+                # two junk lists in front and an untrimmed content: offsets start at a non-zero position
+                k = 3 if len(content) else 0
+                if k:
+                    take = numpy.concatenate([numpy.zeros(k, numpy.int64), numpy.arange(len(content), dtype=numpy.int64)])
+                    new_content = content._carry(Index64(take), False)
+                else:
+                    new_content = content
+                new_off = numpy.concatenate([[0, 1 if k else 0], offsets + k]).astype(numpy.int64)
+                done["n"] += 1
+                return ListOffsetArray(Index64(new_off), new_content, parameters=lay.parameters)[2:]
+            if kind == "indexed-lists" and nl > 1:
+                perm = numpy.arange(nl)[::-1].copy()
+                shuffled = ListOffsetArray(lay.offsets, content, parameters=lay.parameters)._carry(Index64(perm), False)
+                done["n"] += 1
+                return IndexedArray(Index64(perm.copy()), shuffled)   # perm is its own inverse
+            return ListOffsetArray(lay.offsets, content, parameters=lay.parameters)
+        if isinstance(lay, RegularArray):
+            return RegularArray(rec(lay.content), lay.size, lay.length, parameters=lay.parameters)
+        if isinstance(lay, IndexedOptionArray):
+            return IndexedOptionArray(lay.index, rec(lay.content), parameters=lay.parameters)
+        if isinstance(lay, RecordArray):
+            n = lay.length
+            contents = [rec(c) for c in lay.contents]
+            new = RecordArray(contents, lay.fields, length=n, parameters=lay.parameters)
+            if kind == "indexed-records" and n > 1:
+                perm = numpy.roll(numpy.arange(n), 1)
+                inv = numpy.argsort(perm)
+                done["n"] += 1
+                return IndexedArray(Index64(inv), new._carry(Index64(perm), False))
+            if kind == "bytemasked-allvalid":
+                done["n"] += 1
+                return ByteMaskedArray(Index8(numpy.ones(n, numpy.int8)), new, valid_when=True)
+            if kind == "bitmasked-allvalid":
+                done["n"] += 1
+                nbytes = (n + 7) // 8
+                return BitMaskedArray(IndexU8(numpy.full(nbytes, 255, numpy.uint8)), new, valid_when=True, length=n, lsb_order=True)
+            if kind == "unmasked":
+                done["n"] += 1
+                return UnmaskedArray(new)
+            return new
+        if isinstance(lay, NumpyArray):
+            if kind == "strided-leaves" and lay.data.ndim == 1:
+                data = numpy.asarray(lay.data)
+                wide = numpy.full(2 * len(data) + 1, -9.75 if data.dtype.kind == "f" else 7, dtype=data.dtype)
+                wide[1::2] = data
+                done["n"] += 1
+                return NumpyArray(wide[1::2], parameters=lay.parameters)
+            return lay
+        return lay
+
+    try:
+        new = rec(arr.layout)
+    except TypeError:
+        return None  # not a valid layout (an option around an indexed node)
+    if not done["n"]:
+        return None
+    return ak.Array(new, behavior=arr.behavior)
